@@ -29,7 +29,7 @@ type Machine struct {
 	Vars                       map[string]machine.Value
 	UnresolvedResources        []program.Resource
 	Resources                  []machine.Value // Constants and Variables
-	UnresolvedResourceBalances map[string]int
+	UnresolvedResourceBalances map[int]string  // index of a balance() resource -> account whose balance it asks for
 	resolveCalled              bool
 	Balances                   map[machine.AccountAddress]map[machine.Asset]*machine.MonetaryInt // keeps track of balances throughout execution
 	Stack                      []machine.Value
@@ -62,7 +62,7 @@ func NewMachine(p program.Program) *Machine {
 		Postings:                   make([]Posting, 0),
 		TxMeta:                     map[string]machine.Value{},
 		AccountsMeta:               map[machine.AccountAddress]map[string]machine.Value{},
-		UnresolvedResourceBalances: map[string]int{},
+		UnresolvedResourceBalances: map[int]string{},
 	}
 
 	return &m
@@ -484,7 +484,7 @@ func (m *Machine) ResolveBalances(ctx context.Context, store Store) error {
 
 	m.Balances = make(map[machine.AccountAddress]map[machine.Asset]*machine.MonetaryInt)
 
-	for address, resourceIndex := range m.UnresolvedResourceBalances {
+	for resourceIndex, address := range m.UnresolvedResourceBalances {
 		monetary := m.Resources[resourceIndex].(machine.Monetary)
 		balance, err := store.GetBalance(ctx, address, string(monetary.Asset))
 		if err != nil {
@@ -582,7 +582,7 @@ func (m *Machine) ResolveResources(ctx context.Context, store Store) ([]string, 
 			acc, _ := m.getResource(res.Account)
 			address := string((*acc).(machine.AccountAddress))
 			involvedAccountsMap[machine.Address(idx)] = address
-			m.UnresolvedResourceBalances[address] = idx
+			m.UnresolvedResourceBalances[idx] = address
 
 			ass, ok := m.getResource(res.Asset)
 			if !ok {
